@@ -707,6 +707,7 @@ def r4_tournament(ctx, repo):
     selfn, pop = func_params(fn)[:2]
     table = {}
     bad = unsure = None
+    unknown = None
     client = None
     # path rule (independent of the table below): with equal front numbers a candidate may only be returned after the
     # dominance comparator has been consulted
@@ -741,20 +742,27 @@ def r4_tournament(ctx, repo):
             got = o.value
             key = "front %s, verdict %s" % (sf, flag)
             table.setdefault(key, set()).add(str(got[1]) if got[0] == "obj" else str(got))
-            if o.kind != "return" or got[0] != "obj":
-                bad = bad or (sf, flag, got, "returns %s, which is not a member of the input population" % (got,), o)
+            verdict_ = None
+            if o.kind == "return" and got[0] == "top":
+                # the abstract run lost track of the returned value (a table look-up, an unknown helper): no verdict
+                unknown = unknown or (sf, flag, got, "the returned value is not resolved (%s)" % (got,), o)
                 continue
-            if got[1] == "member":
+            if o.kind != "return" or got[0] != "obj":
+                verdict_ = "returns %s, which is not a member of the input population" % (got,)
+            elif got[1] == "member":
                 continue   # single-member population branch
-            c = got[1]
-            if sf == "<" and c != "candidate0" or sf == ">" and c != "candidate1":
-                bad = bad or (sf, flag, got, "returns the candidate with the worse front number", o)
-            elif sf == "=" and flag is not None and client.orient:
-                win = {1: "candidate0", 2: "candidate1"} if client.orient == 1 else {1: "candidate1", 2: "candidate0"}
-                if flag in win and c != win[flag]:
-                    bad = bad or (sf, flag, got, "at equal front number returns the dominated candidate", o)
-            elif sf == "=" and flag is None:
-                bad = bad or (sf, flag, got, "at equal front number the dominance comparator is not consulted", o)
+            else:
+                c = got[1]
+                if sf == "<" and c != "candidate0" or sf == ">" and c != "candidate1":
+                    verdict_ = "returns the candidate with the worse front number"
+                elif sf == "=" and flag is not None and client.orient:
+                    win = {1: "candidate0", 2: "candidate1"} if client.orient == 1 else {1: "candidate1", 2: "candidate0"}
+                    if flag in win and c != win[flag]:
+                        verdict_ = "at equal front number returns the dominated candidate"
+                elif sf == "=" and flag is None:
+                    verdict_ = "at equal front number the dominance comparator is not consulted"
+            if verdict_ is not None:
+                bad = bad or (sf, flag, got, verdict_, o)
     ctx.extra["tournament_table"] = {k: sorted(v) for k, v in sorted(table.items())}
     ctx.sample({"tournament (front c0?c1, compare(c0,c1)) -> returned": ctx.extra["tournament_table"]})
     if client.sample_ok is False:
@@ -765,6 +773,8 @@ def r4_tournament(ctx, repo):
         ctx.holds("R4", C, where(mod, fn), "candidates = random.sample(population, 2)", key="candidates")
     if bad:
         ctx.violated("R4", C, where(mod, bad[4].node or fn), "front(c0) %s front(c1), verdict %s: %s" % (bad[0], bad[1], bad[3]), key="table")
+    elif unknown:
+        ctx.inconclusive("R4", C, where(mod, unknown[4].node or fn), "front(c0) %s front(c1), verdict %s: %s" % (unknown[0], unknown[1], unknown[3]), key="table")
     else:
         ctx.holds("R4", C, where(mod, fn), "never the worse front, never the dominated candidate; every result is a population member (%d table rows)" % len(table), key="table")
 
